@@ -32,12 +32,12 @@ P = {
   "Trusted: frame link, scripted peer; 'promptly' = 2 s bound which must reproduce in isolation (rule T).",
   "property-based testing (rapid) with harness-owned response/cancel ordering"),
  "C04": ("exploration",
-  "Generated request lists from a scripted client (reference encoder) to a real Server - all handler shapes, gated handlers, failing handlers, unknown methods, pings, stream open/data/close - released in drawn batches, optionally disconnecting after item j with requests queued and executing; plus call/kill/restart histories through a real Transport and Client. Oracle from the handler execution log and the recorded response frames: executed exactly once when answered, at most once when sent, never for pings/unsent ids, argument digest equal, one response per sequence number; successful Transport/Client calls executed exactly once and no call twice.",
-  "Trusted: execution log, scripted client, frame link batching (never reorders). Non-poll server modes; poll needs real sockets.",
+  "Generated request lists from a scripted client (reference encoder) to a real Server - all handler shapes, gated handlers, failing handlers, unknown methods, pings, stream open/data/close - released in drawn batches, optionally disconnecting after item j with requests queued and executing; plus call/kill/restart histories through a real Transport and Client; plus connection-churn histories over real unix sockets (poll-mode and plain servers; rounds of close-previous / silent visitor / burst of fresh connections each writing up to 250 requests) where every request must be answered and executed once and requests the server read off the socket but never executed are a timing-independent violation. Oracle from the handler execution log and the recorded response frames: executed exactly once when answered, at most once when sent, never for pings/unsent ids, argument digest equal, one response per sequence number; successful Transport/Client calls executed exactly once and no call twice.",
+  "Trusted: execution log, scripted client, frame link batching (never reorders), TIOCOUTQ of the client socket. A quarter of the wire cases and all churn cases run over real unix sockets, half / three quarters of them against poll-mode servers.",
   "model-based property testing (rapid) with execution-log invariant; scripted peer over harness-owned link"),
  "C05": ("exploration",
   "Server side: scripted clients on 1-4 connections write 2-300 request frames released in drawn batches to a pipelining Server (direct/async IO); oracle: per connection the handler intervals (atomic tick counter) are disjoint and in send order, responses are in request order, and a connection blocked in a gated handler does not delay the others. Client side: one goroutine issues 2-300 Go calls (ok / handler error / unknown method / undecodable args / unencodable reply) on one shared Done channel over a pipelined real Conn; oracle: arrival order == issue order for every completion carried by a response.",
-  "Trusted: tick counter, frame link. Pings and locally failing calls are outside the ordering oracle (scope note in DESIGN.md). Non-poll modes.",
+  "Trusted: tick counter, frame link. Pings and locally failing calls are outside the ordering oracle (scope note in DESIGN.md). A third of the server-side cases run over real unix sockets, half of them against poll-mode servers.",
   "property-based testing (rapid) with ordering invariants over execution log, wire order and Done arrival order"),
  "C08": ("fault_enumeration",
   "Enumeration per header encoder: hostile constants, every truncation and 14 (quick) / 255 (thorough) single-byte corruptions per position of 8 valid request frames against a real Server and of 4 valid response frames against a real Conn with pending calls and an open stream, all 256 upgrade bytes x method kinds x stream states, and a disconnect after every prefix of a 12-request burst in every non-poll mode; plus rapid-generated mutated/random frame sequences and random bursts. The worker process is the crash detector: the driver reads the case journal of a dead worker, confirms the case in a fresh process and shrinks it; in-process oracle: probes on the same (if it survived) and on another connection are answered correctly.",
@@ -84,7 +84,7 @@ P = {
   "Trusted: counting network, goroutine probe. Poll servers excluded by the statement.",
   "property-based testing (rapid) with resource-leak oracle (endpoint counter + goroutine diff)"),
  "C12": ("exploration",
-  "Differential testing over the configuration space: each generated workload (calls to all handler shapes in every call form, failing calls, unknown methods, pings, stream rounds, sizes up to 200 KB plus one message larger than every configured buffer; sequential or 2-4 workers) is run on a reference configuration and on a drawn or enumerated tuple of network x TLS x header encoder x body codec (typed message per codec) x server modes x client modes x buffer sizes x spelling of each end (Listen/Dial by name, Options by name / constructor / both where the name must win, Transport, Client); the transcripts (per-item outcome and reply digest or error text, multiset of handler executions) must be equal; not completing a workload that the reference completes is a difference. Two unrepaired findings in dependencies (TLS with poll; ws with poll) are listed in known_findings.json and excluded from the generators with counters.",
+  "Differential testing over the configuration space: each generated workload (calls to all handler shapes in every call form, failing calls, unknown methods, pings, stream rounds, sizes up to 200 KB plus one message larger than every configured buffer; sequential or 2-4 workers) is run on a reference configuration and on a drawn or enumerated tuple of network x TLS x header encoder x body codec (typed message per codec) x server modes x client modes x buffer sizes x spelling of each end (Listen/Dial by name, Options by name / constructor / both where the name must win, Transport, Client); the transcripts (per-item outcome and reply digest or error text, multiset of handler executions) must be equal; not completing a workload that the reference completes is a difference. One unrepaired finding in a dependency (ws with poll mode loses part of a large message) is listed in known_findings.json and excluded from the generators with a counter.",
   "Trusted: reference configuration (frame link, default header, json body). Real sockets use kernel-assigned loopback ports plus an identity probe because the library listens with SO_REUSEPORT. Content restricted to [a-z0-9] for xml.",
   "differential property-based testing (rapid) against a reference configuration + enumerated sample of the configuration matrix"),
 }
